@@ -3,9 +3,9 @@ package main
 import (
 	"fmt"
 
-	"golang.org/x/tools/go/ssa"
 	"go/token"
 	"go/types"
+	"golang.org/x/tools/go/ssa"
 	"math/big"
 	"sort"
 	"strings"
@@ -62,27 +62,28 @@ type Obligation struct {
 
 // VC is one verification unit (a function under contract, or a lemma).
 type VC struct {
-	eng       *Engine
-	sc        *Script
-	obls      []*Obligation
-	root      string
-	next0     string // allocation watermark at entry of the function under verification
-	notes     map[string]bool // abstractions / imprecisions used
-	heapSorts map[string]string
-	strLits   map[string]string
-	strOrder  []string
-	cellN     int
-	typeTags  map[string]int
-	tagTypes  map[string]types.Type
-	nameCount map[string]int
-	inputs    map[string]string
-	unsup     []string
-	topRets   []retRec
-	safetyOff bool
-	callsHavoc bool
+	eng          *Engine
+	sc           *Script
+	obls         []*Obligation
+	root         string
+	next0        string          // allocation watermark at entry of the function under verification
+	notes        map[string]bool // abstractions / imprecisions used
+	heapSorts    map[string]string
+	strLits      map[string]string
+	strOrder     []string
+	cellN        int
+	typeTags     map[string]int
+	tagTypes     map[string]types.Type
+	nameCount    map[string]int
+	inputs       map[string]string
+	unsup        []string
+	topRets      []retRec
+	safetyOff    bool
+	callsHavoc   bool
 	firedAnchors map[*Clause]bool
 	tablesDone   map[string]bool
 	topFn        *ssa.Function
+	topCon       *Contract
 }
 
 func (vc *VC) note(format string, a ...interface{}) {
